@@ -282,6 +282,15 @@ func (g *Gen) alloc(x *ssa.Alloc) {
 	r := fmt.Sprintf("%d", 1000000000+g.nfresh)
 	fr.val[x] = r
 	g.storeObj(r, et, g.zeroValue(et))
+	for _, oa := range g.w.DB.OnAlloc {
+		if types.TypeString(et, nil) == oa.Type {
+			if gv, ok := g.w.DB.Ghosts[oa.Ghost]; ok {
+				n, _, _ := g.ghostComp(gv)
+				v := g.trans(oa.Val, &TEnv{g: g, vars: map[string]tvT{}, pkg: oa.Pkg})
+				g.setComp(n, fmt.Sprintf("(store %s %s %s)", g.heapGet(n), r, v.t))
+			}
+		}
+	}
 }
 
 func (g *Gen) slice(x *ssa.Slice) {
@@ -740,8 +749,18 @@ func (g *Gen) callCommon(in *ssa.Call, cc *ssa.CallCommon, guard string) {
 			g.havocTarget(tg)
 		}
 	}
+	g.ncallFresh++
+	env.freshLo = fmt.Sprintf("%d000000000000", 1+g.ncallFresh)
+	env.freshHi = fmt.Sprintf("%d000000000000", 2+g.ncallFresh)
 	for _, e := range ct.Ensures {
 		g.assume(guard, g.transBool(e.E, env))
+	}
+	for i := range env.freshTerms {
+		for j := i + 1; j < len(env.freshTerms); j++ {
+			if env.freshTerms[i] != env.freshTerms[j] {
+				g.assume(guard, fmt.Sprintf("(or (not (= %s %s)) (= %s 0))", env.freshTerms[i], env.freshTerms[j], env.freshTerms[i]))
+			}
+		}
 	}
 }
 
